@@ -69,7 +69,8 @@ def anderson_acc(fcn: Callable[..., torch.Tensor], x0: torch.Tensor, params: Lis
 
     def _unravel(xn: torch.Tensor) -> torch.Tensor:
         # xn: (..., feats_tot)
-        x = xn.reshape(*batch_shape, *featshape)  # (..., *nfeats)
+        # (the shape as one tuple: it is empty for a 0-dimensional x0)
+        x = xn.reshape((*batch_shape, *featshape))  # (..., *nfeats)
         return x
 
     def _fcn(xn: torch.Tensor) -> torch.Tensor:
